@@ -82,14 +82,25 @@ class Abstraction:
     def tr(self, t):
         k = t.get_id()
         r = self.memo.get(k)
+        if r is not None:
+            r = r[1]
         if r is None:
             r = self._tr(t)
-            self.memo[k] = r
+            if z3.is_app(r) and r.sort().kind() == z3.Z3_SEQ_SORT:
+                raise NotImplementedError(f"untranslated sequence term {t.decl().name()} kind {t.decl().kind()}: {t}")
+            self.memo[k] = (t, r)   # keep t alive: z3 ast ids are reused after garbage collection
         return r
 
     def _tr(self, t):
         if z3.is_quantifier(t):
-            raise NotImplementedError("quantifier in abstraction")
+            n = t.num_vars()
+            consts = [z3.Const(f"{t.var_name(i)}!b{t.get_id()}", msort(t.var_sort(i))) for i in range(n)]
+            orig = [z3.Const(f"{t.var_name(i)}!b{t.get_id()}", t.var_sort(i)) for i in range(n)]
+            body = z3.substitute_vars(t.body(), *reversed(orig))
+            ab = self.tr(body)
+            if any(c.sort() != o.sort() for c, o in zip(consts, orig)):
+                raise NotImplementedError("quantified sequence variable")
+            return z3.ForAll(consts, ab) if t.is_forall() else z3.Exists(consts, ab)
         if z3.is_var(t):
             return t
         if not z3.is_app(t):
@@ -119,6 +130,8 @@ class Abstraction:
             return r
         if kind == z3.Z3_OP_SEQ_LENGTH:
             a = self.tr(ch[0])
+            if a.sort() != B and a.sort() != LB:
+                raise NotImplementedError(f"len of untranslated {ch[0].decl().name()} kind {ch[0].decl().kind()} sort {ch[0].sort()}: {ch[0]}")
             return (len_LB if a.sort() == LB else len_B)(a)
         if kind == z3.Z3_OP_SEQ_EXTRACT:
             a = self.tr(ch[0])
@@ -177,9 +190,8 @@ class SeqFacts:
     """Ground instances of sequence-theory facts for the abstract terms occurring in a query."""
 
     def __init__(self, rounds=3):
-        self.seen = set()
+        self.seen = {}
         self.rounds = rounds
-        self.terms_B = {}
 
     def feed(self, formulas):
         out = []
@@ -187,16 +199,38 @@ class SeqFacts:
         for _ in range(self.rounds):
             terms = []
             stack = list(frontier)
+            qnew = []
             while stack:
                 t = stack.pop()
                 k = t.get_id()
                 if k in self.seen:
                     continue
-                self.seen.add(k)
+                self.seen[k] = t
                 if z3.is_app(t):
                     terms.append(t)
                     stack.extend(t.children())
-            new = []
+                elif z3.is_quantifier(t):
+                    # facts about terms that mention the bound variables are emitted under the same binder
+                    n = t.num_vars()
+                    cs = [z3.Const(f"{t.var_name(i)}!q{k}", t.var_sort(i)) for i in range(n)]
+                    body = z3.substitute_vars(t.body(), *reversed(cs))
+                    sub = []
+                    st2 = [body]
+                    seen2 = set()
+                    while st2:
+                        u = st2.pop()
+                        if u.get_id() in seen2 or not z3.is_app(u):
+                            continue
+                        seen2.add(u.get_id())
+                        sub.append(u)
+                        st2.extend(u.children())
+                    for u in sub:
+                        for f in self._inst(u):
+                            if any(_mentions(f, c) for c in cs):
+                                qnew.append(z3.ForAll(cs, f))
+                            elif u.get_id() not in self.seen:
+                                qnew.append(f)
+            new = list(qnew)
             for t in terms:
                 new.extend(self._inst(t))
             new = [z3.simplify(n) for n in new]
@@ -283,6 +317,23 @@ class SeqFacts:
         return out
 
 
+def _mentions(f, c):
+    stack = [f]
+    seen = set()
+    while stack:
+        u = stack.pop()
+        if u.get_id() in seen:
+            continue
+        seen.add(u.get_id())
+        if u.eq(c):
+            return True
+        if z3.is_app(u):
+            stack.extend(u.children())
+        elif z3.is_quantifier(u):
+            stack.append(u.body())
+    return False
+
+
 class AbsSolver:
     """Incremental in-process solver over the abstraction."""
 
@@ -292,7 +343,30 @@ class AbsSolver:
         self.s = z3.Solver()
         self.s.set("timeout", timeout_ms)
         self._nlit = 0
-        self.ok = True
+        self.scopes = [[]]    # valid facts added inside each push scope (re-added to the outer scope on pop)
+
+    def _fact(self, f):
+        self.s.add(f)
+        self.scopes[-1].append(f)
+
+    def push(self):
+        self.s.push()
+        self.scopes.append([])
+
+    def pop(self):
+        popped = self.scopes.pop()
+        self.s.pop()
+        for f in popped:
+            self.s.add(f)
+        self.scopes[-1].extend(popped)
+
+    def add_fact(self, z):
+        """A universally valid instance (axiom instance / type fact): survives pop."""
+        a = self.ab.tr(z)
+        self._fact(a)
+        for f in self.facts.feed([a]):
+            self._fact(f)
+        self._flush_lits()
 
     def _flush_lits(self):
         la = self.ab.lit_axioms
@@ -300,15 +374,15 @@ class AbsSolver:
             new = la[self._nlit:]
             self._nlit = len(la)
             for a in new:
-                self.s.add(a)
+                self._fact(a)
             for f in self.facts.feed(new):
-                self.s.add(f)
+                self._fact(f)
 
     def add(self, z):
         a = self.ab.tr(z)
         self.s.add(a)
         for f in self.facts.feed([a]):
-            self.s.add(f)
+            self._fact(f)
         self._flush_lits()
 
     def check_with(self, z):
@@ -317,7 +391,7 @@ class AbsSolver:
         extra = self.facts.feed([a])
         # facts are valid sequence-theory instances: keep them permanently
         for f in extra:
-            self.s.add(f)
+            self._fact(f)
         self._flush_lits()
         self.s.push()
         self.s.add(a)
@@ -329,7 +403,7 @@ class AbsSolver:
         """All values of the int term z consistent with the assertions, or None if more than maxn / undecided."""
         a = self.ab.tr(z)
         for f in self.facts.feed([a]):
-            self.s.add(f)
+            self._fact(f)
         self._flush_lits()
         vals = []
         self.s.push()
